@@ -7,18 +7,28 @@ from .. import covoracle as co
 from .. import gradoracle as go
 
 RULE = ("cases = (kernel expression tree, point sets X (n,d), Y (m,d)); trees from the Cov grammar (6 kernels, 5 operators, "
-        "scalar operands, 6 active_dims forms incl. lists with repeated and negative indices, powers over 3 decades) x "
+        "scalar operands, 6 active_dims forms incl. lists with repeated and negative indices, real powers over 3 decades "
+        "over positive bases, natural powers 1..4 over bases of any sign) x "
         "three point streams: 'sharp' (well separated in every column: finite differences applicable), 'wide' "
         "(clustered/near-duplicate/anisotropic, scales 1e-2..1e2, exactly coincident and 1e-7-near rows) and 'adv' "
-        "(coincident, collinear, offsets up to 1e4); distinct = distinct (tree, data) hash; non-trivial = gradient has "
+        "(coincident, collinear, offsets up to 1e4); plus, first on every run, the regression witnesses of the "
+        "Pow.k_grad guard defect and a grid 'natpow': natural exponents {1,2,3,4} over bases containing Linear (Linear, "
+        "Linear + small c, Linear * stationary, Linear * Linear) at depth 1 and nested under Add / Mul / Pow, on "
+        "'lattice' point sets (integer x, half-integer or integer y, scaled by a power of two) built to contain pairs "
+        "with negative, positive and EXACTLY zero dot product (orthogonal vectors) and on 'sharp' real points; "
+        "distinct = distinct (tree, data) hash; non-trivial = gradient has "
         "a non-zero entry and (for trees with an inactive column) a zero one")
 PARTIAL = ["finite everywhere / agreement with autodiff and finite differences are float64 statements: the Lean theorems are "
            "over R (denominators never vanish; exact factor dist/(dist+1e-12); |kGrad - dk/dy| <= 1e-6*devBound for every "
            "tree); the float side is covered by these runs",
-           "where a power node's base kernel value underflows to 0.0 (fixed defect C11:finite:pow-lt1-base-underflow: NaN "
-           "before the guard `where(base_k > 0, ..., 0.0)`), only finiteness, exact zeros in unreachable columns and the "
-           "model's guarded value are claimed - the true derivative is below the float range of the factors; Lean: "
-           "kgrad_pow_base_nonpos",
+           "where a power node with exponent < 1 sees a base kernel value that underflowed to exactly 0.0 (fixed defect "
+           "C11:finite:pow-lt1-base-underflow: NaN before the guard `where((base_k == 0) & (p < 1), 0.0, ...)`), only "
+           "finiteness, exact zeros in unreachable columns and the model's guarded value are claimed - the true "
+           "derivative is below the float range of the factors; Lean: kgrad_pow_base_zero_lt1",
+           "non-integer powers of a base value <= 0 are outside the property (base ** p is nan for a negative base, not "
+           "differentiable at 0 for p < 1): never generated; natural powers m >= 1 are covered for a base of any sign "
+           "(Lean: kgrad_pow_nat_directional/_partial, kgrad_pow_linear_eq, Regular/Smooth; runs: 'natpow' grid + "
+           "regression witnesses, signature C11:pow-nonpositive-base)",
            "finite differences are only applied to the 'sharp' stream (every column gap >= 0.05*scale), because a central "
            "difference cannot resolve the 1e-6-wide regularised kink of the distance at coincident points"]
 ASSUMPTIONS = ["JAX forward-mode AD (`jax.jacfwd`) of `cov.k` returns the derivative of the float computation (trusted contract; "
@@ -131,6 +141,23 @@ def run_case(ctx, res, p):
                 res.oracle_fail("k_grad is non-zero at a coincident pair", p,
                                 detail={"max_abs": float(np.max(np.abs(G[eq])))}, signature="C11:coincident")
 
+    # --- regression witnesses with a hand-computed gradient (defect: Pow.k_grad zeroed the gradient wherever the base
+    #     value was not positive; stable signature so that the old guard is reported if it comes back)
+    if p.get("expect") is not None:
+        E = np.asarray(p["expect"], float).reshape(n, m, d)
+        res.count("regression_witnesses")
+        if not np.allclose(G, E, rtol=1e-12, atol=1e-12):
+            i, j, cc = np.unravel_index(np.argmax(np.abs(G - E)), E.shape)
+            res.oracle_fail("Pow.k_grad is not the chain rule where the base kernel value is negative or exactly zero "
+                            "(natural-number exponent)", p,
+                            detail={"i": int(i), "j": int(j), "col": int(cc), "impl": float(G[i, j, cc]),
+                                    "expected": float(E[i, j, cc])},
+                            signature="C11:pow-nonpositive-base")
+    if has_nat_pow_any_sign(tree):
+        sg = nat_pow_base_signs(tree, X, Y)
+        for key, v in sg.items():
+            res.count("natpow_pairs_base_" + key, int(v))
+
     # --- closed-form interval oracle (independent of code and model)
     iv = go.grad_interval(tree, X, Y)
     well = iv["wellcond"] & ~bad_pairs
@@ -174,6 +201,8 @@ def run_case(ctx, res, p):
             dev = np.where(well[..., None], dev, 0.0)
             dev = np.where(np.isfinite(A), dev, np.where(well[..., None], np.inf, 0.0))
             res.dev("analytic_vs_autodiff_excess_over_noise_tol", np.max(dev, initial=0))
+            if stream in ("natpow", "regress"):
+                res.dev("natpow:analytic_vs_autodiff_excess_over_noise_tol", np.max(dev, initial=0))
             res.dev("analytic_vs_autodiff_use_of_gamma_bound_(exact_bound,_1_at_coincident_pairs)", np.max(np.where(well[..., None], devsys, 0.0), initial=0))
             if np.max(dev, initial=0) > 1.0:
                 i, j, cc = np.unravel_index(np.argmax(dev), dev.shape)
@@ -184,8 +213,12 @@ def run_case(ctx, res, p):
     # --- central differences with Richardson extrapolation (sharp stream only)
     if p.get("fd_h"):
         h = float(p["fd_h"])
-        kiv = co.interval(tree, X, Y)
-        noise = (kiv[1] - kiv[0]) + 4 * go.EPS * np.maximum(np.abs(kiv[0]), np.abs(kiv[1]))
+        def knoise(Z):
+            kiv = go.value_interval(tree, X, Z)
+            return (kiv[1] - kiv[0]) + 4 * go.EPS * np.maximum(np.abs(kiv[0]), np.abs(kiv[1]))
+        # rounding noise of the kernel values that enter the difference quotients: at y and at the displaced points
+        # (where a natural power sees a base value of exactly 0 at y, the value at y says nothing about y +- h)
+        noise = np.repeat(knoise(Y)[..., None], d, axis=2)
         kf = lambda Z: np.asarray(c(X, Z), float)
         D1 = np.zeros((n, m, d))
         D2 = np.zeros((n, m, d))
@@ -195,11 +228,14 @@ def run_case(ctx, res, p):
                 Yp[:, cc] += hh
                 Ym[:, cc] -= hh
                 D[:, :, cc] = (kf(Yp) - kf(Ym)) / (Yp[:, cc] - Ym[:, cc])[None, :]
+                noise[:, :, cc] = np.maximum(noise[:, :, cc], np.maximum(knoise(Yp), knoise(Ym)))
         R = (4 * D2 - D1) / 3
-        est = 2 * np.abs(D2 - D1) + 16 * noise[..., None] / h
+        est = 2 * np.abs(D2 - D1) + 16 * noise / h
         tol = est + 2e-6 * iv["mass"] + 1e-300
         dev = np.abs(G - R) / tol
         res.dev("analytic_vs_richardson_over_tol", np.max(dev, initial=0))
+        if stream in ("natpow", "regress"):
+            res.dev("natpow:analytic_vs_richardson_over_tol", np.max(dev, initial=0))
         res.count("fd_cases")
         if np.max(dev, initial=0) > 1.0:
             i, j, cc = np.unravel_index(np.argmax(dev), dev.shape)
@@ -225,6 +261,8 @@ def run_case(ctx, res, p):
             width = (iv["hi"] - iv["lo"]) + 2e-13 * iv["mass"] + 1e-300
             dev = np.where(well[..., None], np.abs(Gm - G) / width, 0.0)
             res.dev("model_vs_impl_in_interval_widths", np.max(dev, initial=0))
+            if stream in ("natpow", "regress"):
+                res.dev("natpow:model_vs_impl_in_interval_widths", np.max(dev, initial=0))
             zero_mismatch = bool(inactive and np.any(Gm[:, :, inactive] != 0))
             if not np.all(okm) or np.max(dev, initial=0) > 1.5 or zero_mismatch:
                 res.corr_fail("model and implementation gradients differ", p,
@@ -240,6 +278,35 @@ def has_pow_lt1(t):
     if t[0] in ("ADD", "MUL"):
         return has_pow_lt1(t[1]) or has_pow_lt1(t[2])
     return has_pow_lt1(t[1])
+
+
+def has_nat_pow_any_sign(t):
+    """Some power node has a natural exponent over a base that is not provably positive."""
+    if t[0] in LEAVES:
+        return False
+    if t[0] == "POW" and go.is_natural(t[2]) and not cov_positive(t[1]):
+        return True
+    if t[0] in ("ADD", "MUL"):
+        return has_nat_pow_any_sign(t[1]) or has_nat_pow_any_sign(t[2])
+    return has_nat_pow_any_sign(t[1])
+
+
+def nat_pow_base_signs(tree, X, Y, acc=None):
+    """Number of pairs whose base value under a natural power (base of any sign) is negative / exactly 0 / positive."""
+    acc = acc if acc is not None else {"negative": 0, "zero": 0, "positive": 0}
+    k = tree[0]
+    if k in LEAVES:
+        return acc
+    Xs, Ys = co.sel(tree[-1], X), co.sel(tree[-1], Y)
+    if k == "POW" and go.is_natural(tree[2]) and not cov_positive(tree[1]):
+        b = np.asarray(cov_to_mellon(tree[1])(Xs, Ys), float)
+        acc["negative"] += int((b < 0).sum())
+        acc["zero"] += int((b == 0).sum())
+        acc["positive"] += int((b > 0).sum())
+    nat_pow_base_signs(tree[1], Xs, Ys, acc)
+    if k in ("ADD", "MUL"):
+        nat_pow_base_signs(tree[2], Xs, Ys, acc)
+    return acc
 
 
 def pow_underflow_pairs(tree, X, Y):
@@ -310,7 +377,7 @@ def adv_points(rng, n, m, d):
 
 
 def gen_tree(rng, d, depth, ls_range, allow_repeat=True):
-    t = gen_cov(rng, d, depth, ls_range=ls_range, pow_range=(0.03, 30.0))
+    t = gen_cov(rng, d, depth, ls_range=ls_range, pow_range=(0.03, 30.0), nat_pow_prob=0.3)
     if allow_repeat and rng.random() < 0.35:
         t = with_repeat(rng, t, d)
     return t
@@ -328,6 +395,127 @@ def with_repeat(rng, t, d, prob=0.4):
     if t[0] in ("ADD", "MUL"):
         return (t[0], with_repeat(rng, t[1], w, prob), with_repeat(rng, t[2], w, prob), ad)
     return (t[0], with_repeat(rng, t[1], w, prob), t[2], ad)
+
+
+# ---- natural powers over bases of any sign (the repaired Pow.k_grad guard)
+
+AN = ("AN",)
+
+REGRESSION = [
+    # (Linear(1.0) ** 2).k_grad([[1, 2]])([[-1, -1]]) = 2 * (-3) * [1, 2]; the guard `where(base_k > 0, ..., 0)` gave 0
+    {"op": "kgrad", "stream": "regress", "tree": ("POW", ("LIN", 1.0, AN), 2.0, AN),
+     "X": [[1.0, 2.0]], "Y": [[-1.0, -1.0]], "expect": [[[-6.0, -12.0]]], "fd_h": 1e-3},
+    # Linear(ls) ** 1 at orthogonal points (base value exactly 0): the gradient is x / ls; the old guard gave 0
+    {"op": "kgrad", "stream": "regress", "tree": ("POW", ("LIN", 2.0, AN), 1.0, AN),
+     "X": [[1.0, 0.0], [0.0, 3.0]], "Y": [[0.0, 1.0], [2.0, 0.0]],
+     "expect": [[[0.5, 0.0], [0.5, 0.0]], [[0.0, 1.5], [0.0, 1.5]]], "fd_h": 1e-3},
+    # a negative, an exactly-zero and a positive base value under an odd power:
+    # (Linear(1) ** 3).k_grad: 3 * <x,y>^2 * x
+    {"op": "kgrad", "stream": "regress", "tree": ("POW", ("LIN", 1.0, AN), 3.0, AN),
+     "X": [[1.0, -2.0]], "Y": [[-1.0, 1.0], [2.0, 1.0], [3.0, 1.0]],
+     "expect": [[[27.0, -54.0], [0.0, 0.0], [3.0, -6.0]]], "fd_h": 1e-3},
+]
+
+NAT_BASES = ["LIN", "LIN+c", "LIN*STAT", "LIN*LIN"]
+NAT_WRAPS = ["depth1", "ADD", "MUL", "POW"]
+
+
+def lattice_points(rng, n, m, d, half=True):
+    """X on the integer lattice, Y on the half-integer lattice (half=True: every column gap >= 0.5, so central
+    differences resolve distance-based factors) or on the integer lattice; rows are re-drawn so that the set contains
+    pairs with negative, exactly zero (orthogonal) and positive dot product; a power-of-two scale keeps the zeros exact."""
+    off = 0.5 if half else 0.0
+    X = rng.integers(-3, 4, size=(n, d)).astype(float)
+    for i in range(n):
+        while not np.any(X[i]):
+            X[i] = rng.integers(-3, 4, size=d)
+    Y = rng.integers(-3, 3, size=(m, d)).astype(float) + off
+    if not half:
+        for j in range(m):
+            while not np.any(Y[j]):
+                Y[j] = rng.integers(-3, 4, size=d)
+
+    def draw(j, i, want):
+        for _ in range(400):
+            y = rng.integers(-3, 3, size=d).astype(float) + off
+            s = float(X[i] @ y)
+            if (want < 0 and s < 0) or (want > 0 and s > 0) or (want == 0 and s == 0 and (half or np.any(y))):
+                Y[j] = y
+                return True
+        return False
+    draw(0, 0, -1)
+    draw(1 % m, 1 % n, +1)
+    if not draw(2 % m, 2 % n, 0):
+        # no orthogonal partner on this lattice (d = 1, or half-integers against this x): make the dot product
+        # vanish through a zero row of X instead (the gradient x/ls is then 0 and so is the base value)
+        X[2 % n] = 0.0
+    scale = float(2.0 ** int(rng.integers(-2, 3)))
+    return np.ascontiguousarray(X * scale), np.ascontiguousarray(Y * scale), scale
+
+
+def nat_base(rng, kind, w, scale, plain_ad):
+    ad = (lambda: AN) if plain_ad else (lambda: gen_ad(rng, w, allow_repeat=bool(rng.random() < 0.3)))
+    ls = lambda: float(rng.choice([1.0, 0.5, 2.0, 3.0])) * scale if rng.random() < 0.5 else loguniform(rng, 0.5, 30) * scale
+    lin = lambda: ("LIN", ls(), ad())
+    if kind == "LIN":
+        return lin()
+    if kind == "LIN+c":
+        return ("ADDC", lin(), loguniform(rng, 1e-3, 0.3), AN)
+    if kind == "LIN*LIN":
+        return ("MUL", lin(), lin(), AN)
+    sk = STATIONARY[int(rng.integers(len(STATIONARY)))]
+    st = ("RQ", loguniform(rng, 0.1, 10), ls(), ad()) if sk == "RQ" else (sk, ls(), ad())
+    return ("MUL", lin(), st, AN) if rng.random() < 0.5 else ("MUL", st, lin(), AN)
+
+
+def natpow_case(rng, base_kind, mexp, wrap, points):
+    """One case of the 'natpow' grid."""
+    n, m, d = SHAPES[int(rng.integers(1, len(SHAPES)))]
+    plain = bool(rng.random() < 0.6)
+    if points == "real":
+        scale = loguniform(rng, 0.3, 3.0)
+        X, Y = sharp_points(rng, n, m, d, scale)
+    else:
+        X, Y, scale = lattice_points(rng, n, m, d, half=(points == "half"))
+    ad = AN if plain else gen_ad(rng, d, allow_repeat=bool(rng.random() < 0.3))
+    w = len(ad_indices(ad, d))
+    pw = ("POW", nat_base(rng, base_kind, w, scale, plain), float(mexp), AN)
+    if wrap == "depth1":
+        tree = pw[:3] + (ad,)
+    elif wrap == "POW":
+        tree = ("POW", ("ADDC", pw, loguniform(rng, 1e-3, 0.3) * (-1 if rng.random() < 0.5 else 1), AN),
+                float(rng.integers(1, 4)), ad)
+    else:
+        ok = STATIONARY[int(rng.integers(len(STATIONARY)))]
+        ls_o = loguniform(rng, 0.5, 30) * scale
+        other = ("RQ", loguniform(rng, 0.1, 10), ls_o, AN) if ok == "RQ" else (ok, ls_o, AN)
+        if rng.random() < 0.4:
+            other = ("POW", ("LIN", loguniform(rng, 0.5, 30) * scale, AN), float(rng.integers(1, 5)), AN)
+        tree = (wrap, pw, other, ad) if rng.random() < 0.5 else (wrap, other, pw, ad)
+    p = {"op": "kgrad", "stream": "natpow", "natpow": f"{base_kind}^{mexp}/{wrap}/{points}", "tree": tree, "X": X, "Y": Y}
+    # central differences: polynomial factors are always resolved; distance-based factors need every column gap
+    sharp = bool(np.all(np.abs(X[:, None, :] - Y[None, :, :]) >= 0.05 * scale))
+    if sharp or not any(has_kind(tree, s) for s in STATIONARY):
+        p["fd_h"] = 1e-3 * min(scale, min_ls(tree))
+    return p
+
+
+def run_natpow(ctx, res, quick):
+    rng = ctx["rng"]
+    for p in REGRESSION:
+        run_case(ctx, res, dict(p, X=np.asarray(p["X"], float), Y=np.asarray(p["Y"], float)))
+    grid = [(b, mexp, wr) for b in NAT_BASES for mexp in (1, 2, 3, 4) for wr in NAT_WRAPS]
+    if quick:
+        # every (base, exponent) at depth 1, and a random third of the nested combinations
+        nested = [g for g in grid if g[2] != "depth1"]
+        grid = [g for g in grid if g[2] == "depth1"] + [nested[i] for i in rng.permutation(len(nested))[:16]]
+    for b, mexp, wr in grid:
+        kinds = ["half", "int"] if quick else ["half", "int", "real", "half"]
+        if quick:
+            kinds = [kinds[int(rng.integers(2))]] if wr != "depth1" else kinds
+        for pts in kinds:
+            run_case(ctx, res, natpow_case(rng, b, mexp, wr, pts))
+            res.count("natpow_cases")
 
 
 def gen_case(rng, stream, depth, shape=None, tree=None):
@@ -361,6 +549,10 @@ def run(ctx, res):
     t0 = time.time()
     t_end = t0 + budget
     mellon()
+    # first, on every run and outside the time box: the regression witnesses of the Pow.k_grad guard defect and the
+    # grid of natural powers over bases of any sign
+    run_natpow(ctx, res, quick)
+    res.count("natpow_wall_s", int(time.time() - t0))
     # bounded-exhaustive skeleton: every leaf kind x every active_dims form (plus repeated-index lists)
     ad_forms = ["AN", "AI", "AIneg", "AL", "AM", "AS"]
     combos = [(k, f) for k in LEAVES for f in ad_forms + ["ALrep"]]
@@ -397,8 +589,10 @@ def run(ctx, res):
             tree = (op, mk(kl), mk(kr), ad)
         elif op == "POW":
             if kl == "LIN":
-                continue
-            tree = (op, mk(kl), loguniform(rng, 0.03, 30), ad)
+                # a base of any sign: natural-number exponents only
+                tree = (op, mk(kl), float(rng.integers(1, 5)), ad)
+            else:
+                tree = (op, mk(kl), loguniform(rng, 0.03, 30), ad)
         else:
             tree = (op, mk(kl), loguniform(rng, 0.01, 10), ad)
         X, Y = sharp_points(rng, n, m, d, scale)
@@ -425,9 +619,16 @@ CLAIM = {
             "derivative of the regularised distance; exact zeros in unreachable columns; zero gradient at coincident "
             "points; result width = width of y. Tied to /repo by running cov.k_grad(x)(y) and the model's executable "
             "kGrad on the same inputs, and checked against three independent oracles (closed-form interval oracle, "
-            "jax.jacfwd of cov.k, Richardson-extrapolated central differences of cov(x, y)).",
+            "jax.jacfwd of cov.k, Richardson-extrapolated central differences of cov(x, y)). Power nodes: the chain rule "
+            "p*base^(p-1)*grad(base) is proved to be the derivative for a positive base value (any exponent) and for a "
+            "natural-number exponent m >= 1 over a base value of ANY sign (negative, zero, positive; e.g. Linear ** 2); the "
+            "guard where((base == 0) & (p < 1), 0, ...) is proved inactive in both cases and to give exactly 0 where it "
+            "is active.",
     "note": "Theorems are about the model at alpha = R: 'finite' and 'agrees with autodiff/finite differences' are float64 "
-            "statements exercised by the runs only. Power nodes need a positive base value (u^p is not differentiable at 0), "
+            "statements exercised by the runs only. Non-integer powers need a positive base value (base ** p is nan for a "
+            "negative base and u^p is not differentiable at 0 for p < 1); natural powers m >= 1 are covered for any base "
+            "value (theorems kgrad_pow_nat_*, kgrad_pow_linear_eq, regular_of_smooth; runs: regression witnesses "
+            "C11:pow-nonpositive-base and the natpow grid on point sets with negative, zero and positive base values). "
             "RatQuad needs alpha > 0. Correspondence is sampled differential testing.",
     "technique": "Lean 4 proof (HasDerivAt calculus + structural induction over kernel syntax; scatter-add proved to be the "
                  "transpose of column selection) + differential correspondence with interval, autodiff and "
